@@ -229,3 +229,39 @@ Definition verdict_legacy (ok : rtcase -> bool) (c : lcase) : N :=
 Definition verdicts_legacy_C01 (cs : list lcase) : list N := map (verdict_legacy C01_ok) cs.
 Definition verdicts_legacy_C03 (cs : list lcase) : list N := map (verdict_legacy C03_ok) cs.
 Definition verdicts_legacy_any (cs : list lcase) : list N := map (verdict_legacy (fun c => match c with (_, _, _, _, _, t) => no_panic t end)) cs.
+
+(* ---------- the implementation under a Core against the reference semantics (RefCore.v) ---------- *)
+From Crux Require Import Rt.RefCore.
+Definition kobs_obs_eqb (r : kobs) (o : obs) : bool :=
+  match r, o with
+  | KCall c effs lg, OCall c' effs' lg' =>
+      Nat.eqb c c' && ms_eqb oeff_eqb (map oeff_of_reff effs) effs' && ms_eqb event_eqb lg lg'
+  | KResolve c, OResolve c' => Nat.eqb c c'
+  | KNone, ONone => true
+  | KNone, OLive _ => true
+  | _, _ => false
+  end.
+Definition in_core_fragment (c : rtcase) : bool :=
+  match c with (core, _, _, hs, acts, _) => core && handlers_cancel_free hs && sched_abort_free acts end.
+(* 0 outside the fragment | 1 inside, request names ambiguous somewhere | 2 inside and compared *)
+Definition core_fragment_flag (c : rtcase) : N :=
+  if negb (in_core_fragment c) then 0%N else
+  match c with (_, _, _, hs, acts, _) =>
+    match ref_core hs acts with Some (_, false) => 2%N | _ => 1%N end end.
+(* per call: the effects handed over and the events applied so far are, as multisets, exactly those of
+   the reference semantics; same result codes *)
+Definition RC_ok (c : rtcase) : bool :=
+  match c with (_, _, _, hs, acts, t) =>
+    no_panic t &&
+    (negb (in_core_fragment c) ||
+     match ref_core hs acts with
+     | Some (r, false) => list_eqb2 kobs_obs_eqb r t
+     | Some (_, true) => true
+     | None => false
+     end)
+  end.
+Definition verdicts_RC (cs : list rtcase) : list N := map (verdict_with RC_ok) cs.
+(* C01 and C04 under a Core: their own predicate and the reference semantics *)
+Definition verdicts_C01R (cs : list rtcase) : list N := map (verdict_with (fun c => C01_ok c && RC_ok c)) cs.
+Definition verdicts_C04R (cs : list rtcase) : list N := map (verdict_with (fun c => C04_ok c && RC_ok c)) cs.
+Definition core_fragment_flags (cs : list rtcase) : list N := map core_fragment_flag cs.
